@@ -44,17 +44,18 @@ type Config struct {
 	DirectQoS0        bool   `json:"direct_qos0,omitempty"`
 	MaxPayloadLen     int    `json:"max_payload,omitempty"`
 
-	BrokerMethod string  `json:"broker_method,omitempty"` // "A" (deliver on PUBLISH) | "B" (deliver on PUBREL)
-	HoldAcks     bool    `json:"hold_acks,omitempty"`     // broker withholds all acks except CONNACK/PINGRESP; Script releases them
-	AutoPubRel   bool    `json:"auto_pubrel,omitempty"`   // broker answers PUBREC from the client with PUBREL
-	LatC2BUs     int64   `json:"lat_c2b_us"`
-	LatB2CUs     int64   `json:"lat_b2c_us"`
-	JitterUs     []int64 `json:"jitter_us,omitempty"` // added to successive broker->client deliveries, cycled
-	DialLatUs    int64   `json:"dial_lat_us"`
-	Frag         []int   `json:"frag,omitempty"`     // broker->client fragment sizes, cycled; empty = whole packets
-	Coalesce     bool    `json:"coalesce,omitempty"` // responses of one request delivered in one read
+	BrokerMethod string   `json:"broker_method,omitempty"` // "A" (deliver on PUBLISH) | "B" (deliver on PUBREL)
+	EarlyReply   bool     `json:"early_reply,omitempty"`   // the broker's answer is in the read buffer before Write returns (single-writer scenarios only)
+	HoldAcks     bool     `json:"hold_acks,omitempty"`     // broker withholds all acks except CONNACK/PINGRESP; Script releases them
+	AutoPubRel   bool     `json:"auto_pubrel,omitempty"`   // broker answers PUBREC from the client with PUBREL
+	LatC2BUs     int64    `json:"lat_c2b_us"`
+	LatB2CUs     int64    `json:"lat_b2c_us"`
+	JitterUs     []int64  `json:"jitter_us,omitempty"` // added to successive broker->client deliveries, cycled
+	DialLatUs    int64    `json:"dial_lat_us"`
+	Frag         []int    `json:"frag,omitempty"`     // broker->client fragment sizes, cycled; empty = whole packets
+	Coalesce     bool     `json:"coalesce,omitempty"` // responses of one request delivered in one read
 	InitIDs      []uint32 `json:"init_ids,omitempty"` // initial id counter per BaseClient, cycled (H1)
-	GrantQoS     []byte  `json:"grant,omitempty"`     // SUBACK codes granted in order, cycled; empty = requested qos
+	GrantQoS     []byte   `json:"grant,omitempty"`    // SUBACK codes granted in order, cycled; empty = requested qos
 
 	SlowHandlerUs int64            `json:"slow_handler_us,omitempty"`
 	Yields        map[string]int64 `json:"yields,omitempty"` // H2 site -> park duration (us)
@@ -64,11 +65,11 @@ type Config struct {
 	MuxAsyncOuter bool     `json:"mux_async_outer,omitempty"`
 
 	// keepalive family (C13 part 1)
-	KAIntervalUs int64     `json:"ka_interval_us,omitempty"`
-	KATimeoutUs  int64     `json:"ka_timeout_us,omitempty"`
-	KAPings      []KAPing  `json:"ka_pings,omitempty"`
-	KACancelUs   int64     `json:"ka_cancel_us,omitempty"` // parent ctx cancelled at this time (0 = never)
-	KAPreCancel  bool      `json:"ka_precancel,omitempty"`
+	KAIntervalUs int64    `json:"ka_interval_us,omitempty"`
+	KATimeoutUs  int64    `json:"ka_timeout_us,omitempty"`
+	KAPings      []KAPing `json:"ka_pings,omitempty"`
+	KACancelUs   int64    `json:"ka_cancel_us,omitempty"` // parent ctx cancelled at this time (0 = never)
+	KAPreCancel  bool     `json:"ka_precancel,omitempty"`
 }
 
 // KAPing is the scripted outcome of the i-th Ping in the keepalive family.
@@ -124,13 +125,14 @@ type Out struct {
 	AtUs int64 `json:"at_us,omitempty"`
 	// AfterConnack: fire right after the CONNACK of Conn was released (same
 	// read if Glue) instead of at AtUs.
-	AfterConnack bool `json:"after_connack,omitempty"`
-	Glue         bool `json:"glue,omitempty"`
-	DelayUs      int64 `json:"delay_us,omitempty"` // after the trigger
-	Kind         string `json:"kind"`              // pkt | raw | release | cut
+	AfterConnack bool   `json:"after_connack,omitempty"`
+	Glue         bool   `json:"glue,omitempty"`
+	DelayUs      int64  `json:"delay_us,omitempty"` // after the trigger
+	Kind         string `json:"kind"`               // pkt | raw | release | cut
 	Pkt          *Pkt   `json:"pkt,omitempty"`
 	RawHex       string `json:"raw,omitempty"`
-	Held         int    `json:"held,omitempty"` // release: index into the broker's held responses
+	Held         int    `json:"held,omitempty"`  // release: index into the broker's held responses
+	Helds        []int  `json:"helds,omitempty"` // releaseglued: several held responses in one read
 	EOFAfter     bool   `json:"eof_after,omitempty"`
 	Frag         []int  `json:"frag,omitempty"`
 	Class        string `json:"class,omitempty"` // C06: corruption class, for the oracle
